@@ -28,8 +28,10 @@ def run_unit(unit):
     sp = pycodec.space(tier)
     cases = [sp[i] for i in idxs]
     out = UnitOut()
+    # quick: the sanitizer build (the slowest compile) on every second batch; thorough: on all
+    with_asan = tier != "quick" or (idxs[0] // BATCH) % 2 == 0
     with Scratch() as sc:
-        run_batch(pid, tier, cases, sc, out)
+        run_batch(pid, tier, cases, sc, out, with_asan=with_asan)
     return out.result()
 
 
@@ -68,15 +70,16 @@ def constants(cases, sc, std, out, pid, tag):
                       "byte length constants %r, expected %d" % (got, want), config=lang)
 
 
-def run_batch(pid, tier, cases, sc, out, tag="0"):
+def run_batch(pid, tier, cases, sc, out, tag="0", with_asan=True):
     try:
         std = cback.CBatch(cases, sc.sub("std" + tag))
         std.build("std-O2")
-        std.build("asan")
+        if with_asan:
+            std.build("asan")
     except Exception as e:
         if len(cases) > 1:
             for k, c in enumerate(cases):
-                run_batch(pid, tier, [c], sc, out, "%s_%d" % (tag, k))
+                run_batch(pid, tier, [c], sc, out, "%s_%d" % (tag, k), with_asan)
             return
         c = cases[0]
         out.count("states")
@@ -104,7 +107,7 @@ def run_batch(pid, tier, cases, sc, out, tag="0"):
     except Exception:
         ms = None
     try:
-        for variant in ("std-O2", "asan"):
+        for variant in (("std-O2", "asan") if with_asan else ("std-O2",)):
             h = std.harness(variant)
             try:
                 for r, c in enumerate(cases):
@@ -271,7 +274,7 @@ def main(pid, tier):
         evaluations=c["evaluations"], distinct_nontrivial=c["nontrivial"],
         constants_checked=c["constants_checked"], python_out_of_range_executions=c["py_oor"],
         python_out_of_range_rejected_at_assignment=c["py_oor_rejected_at_assignment"],
-        configurations=["std-O2 (guard pages)", "asan (clang ASan+UBSan, alignment check excluded)", "opt-little", "opt-big", "python"],
+        configurations=["std-O2 (guard pages)", "asan (clang ASan+UBSan, alignment check excluded; quick: every second batch)", "opt-little", "opt-big", "python"],
         rule="states = SING u COMB u TREE; (a) 4 constants per state; (b) every ENC/DEC with struct and wire flush against PROT_NONE pages at "
              "both ends, and again under ASan+UBSan; (c) storage sweep (every byte value in every storage byte of every integer/enum leaf, two "
              "backgrounds) on standard mode and on -O little/big for traditional states, Python out-of-range integers v+k*2^n, negative for "
